@@ -16,37 +16,39 @@ const verifRoot = "/verif"
 
 // JobResult is what one executor process reports about one harness entry.
 type JobResult struct {
-	Pkg         string            `json:"pkg"`
-	HarnessDir  string            `json:"harness_dir"`
-	Entry       string            `json:"entry"`
-	Split       int               `json:"split"`
-	Paths       int               `json:"paths"`
-	PathEnds    map[string]int    `json:"path_ends"`
-	Instrs      int               `json:"instrs"`
-	Forks       int               `json:"forks"`
-	Queries     int               `json:"queries"`
-	Sat         int               `json:"sat"`
-	Unsat       int               `json:"unsat"`
-	Unknown     int               `json:"unknown"`
-	SolverErrs  int               `json:"solver_errors"`
-	PreHits     int               `json:"presolver_hits"`
-	SolverSecs  float64           `json:"solver_s"`
-	MaxQuerySec float64           `json:"max_query_s"`
-	WallSecs    float64           `json:"wall_s"`
-	LoadSecs    float64           `json:"load_s"`
-	MaxVisit    int               `json:"max_loop_visits"`
-	UnwindHit   int               `json:"unwind_hit"`
-	Unwind      int               `json:"unwind"`
-	Unsupported map[string]int    `json:"unsupported"`
-	Violations  []Violation       `json:"violations"`
-	Reached     map[string]int    `json:"reached"`
-	Funcs       []string          `json:"funcs"`
-	Notes       map[string]int    `json:"notes"`
-	Params      map[string]int64  `json:"params"`
-	Known       []string          `json:"known"`
-	Fatal       string            `json:"fatal,omitempty"`
-	Stopped     bool              `json:"stopped,omitempty"`
-	Replaced    map[string]string `json:"replaced,omitempty"`
+	Pkg          string            `json:"pkg"`
+	HarnessDir   string            `json:"harness_dir"`
+	Entry        string            `json:"entry"`
+	Split        int               `json:"split"`
+	Paths        int               `json:"paths"`
+	PathEnds     map[string]int    `json:"path_ends"`
+	Instrs       int               `json:"instrs"`
+	Forks        int               `json:"forks"`
+	Queries      int               `json:"queries"`
+	Sat          int               `json:"sat"`
+	Unsat        int               `json:"unsat"`
+	Unknown      int               `json:"unknown"`
+	SolverErrs   int               `json:"solver_errors"`
+	PreHits      int               `json:"presolver_hits"`
+	SolverSecs   float64           `json:"solver_s"`
+	MaxQuerySec  float64           `json:"max_query_s"`
+	WallSecs     float64           `json:"wall_s"`
+	LoadSecs     float64           `json:"load_s"`
+	MaxVisit     int               `json:"max_loop_visits"`
+	UnwindHit    int               `json:"unwind_hit"`
+	Unwind       int               `json:"unwind"`
+	Unsupported  map[string]int    `json:"unsupported"`
+	Violations   []Violation       `json:"violations"`
+	Reached      map[string]int    `json:"reached"`
+	Funcs        []string          `json:"funcs"`
+	Notes        map[string]int    `json:"notes"`
+	Params       map[string]int64  `json:"params"`
+	Known        []string          `json:"known"`
+	Fatal        string            `json:"fatal,omitempty"`
+	Stopped      bool              `json:"stopped,omitempty"`
+	Replaced     map[string]string `json:"replaced,omitempty"`
+	Samples      []interface{}     `json:"samples,omitempty"`
+	SampleModels [][]NondetVal     `json:"sample_models,omitempty"`
 }
 
 func main() {
@@ -85,6 +87,10 @@ func (k kvFlag) Set(s string) error {
 }
 
 // cmdRun executes harness entries in this process and prints / writes the results.
+func cmdSelftest(args []string) int {
+	return selftest()
+}
+
 func cmdRun(args []string) int {
 	fs := flag.NewFlagSet("run", flag.ExitOnError)
 	repo := fs.String("repo", "/repo", "repository root")
@@ -213,6 +219,7 @@ func runEntry(ld *Loaded, name, hd, pkg string, unwind int, z3 string, seed, qto
 	}
 	sort.Strings(r.Funcs)
 	r.Replaced = ld.replSrc
+	r.Samples, r.SampleModels = ex.PathSamples, ex.SampleModels
 	if sol.Errors > 0 {
 		if r.Unsupported == nil {
 			r.Unsupported = map[string]int{}
